@@ -273,7 +273,15 @@ func runLogger(fields []string) string {
 			rec, keys = parts[0], parts[1]
 		}
 		is = append(is, itoa(n)+":"+rec+":"+keys+":"+strings.Join(trace, ".")+":"+pan)
-		js = append(js, itoa(n)+":"+rec+":"+pan)
+		// the property fixes the level for 2xx-5xx only: for any other reported status the level is not compared
+		recJ := rec
+		if f := strings.Split(rec, ":"); len(f) == 7 {
+			if st, err := strconv.Atoi(f[2]); err == nil && (st < 200 || st > 599) {
+				f[0] = "*"
+				recJ = strings.Join(f, ":")
+			}
+		}
+		js = append(js, itoa(n)+":"+recJ+":"+pan)
 	}
 	res := "I=" + strings.Join(is, "|") + "\tJ=" + strings.Join(js, "|")
 	if len(oracle) > 0 {
